@@ -290,8 +290,13 @@ time_t
 __wrap_time(time_t * t)
 {
 
-	if (t != NULL) *t = fake_time;
-	return (fake_time);
+	time_t now = fake_time;
+
+	/* the clock moves on between two readings: whoever reads it twice during one call sees two different seconds (and, at 23:59:59,
+	 * two different days); the first reading is the one reported with the event */
+	fake_time += 1;
+	if (t != NULL) *t = now;
+	return (now);
 }
 
 static int
@@ -547,11 +552,13 @@ do_ctr(char * l)
 	if (!pattern && off <= 600) { vt_str("msg", strcmp(data, "-") ? data : ""); vt_hex("out", o, off); }
 	else {
 		/* long streams: windows around the counter-carry offsets and the end */
-		size_t offs[8] = { 0, 4080, 4096, 65520, 65536, 1048560, 1048576, off >= 48 ? off - 48 : 0 };
+		/* (every multiple of 4 KiB up to 40 KiB as well: a counter that loses a carry may go wrong only several carries later) */
+		size_t offs[18] = { 0, 4080, 4096, 65520, 65536, 1048560, 1048576, off >= 48 ? off - 48 : 0,
+		    8176, 12272, 16368, 20464, 24560, 28656, 32752, 36848, 40944, 131056 };
 		int w;
 		vt_bool("pattern", pattern);
 		fprintf(vt_out, ",\"windows\":[");
-		for (w = 0; w < 8; w++) {
+		for (w = 0; w < 18; w++) {
 			size_t a = offs[w], b = a + 48 <= off ? 48 : (a < off ? off - a : 0), j;
 			fprintf(vt_out, "%s[%zu,\"", w ? "," : "", a);
 			for (j = 0; j < b; j++) fprintf(vt_out, "%02x", o[a + j]);
